@@ -436,7 +436,8 @@ func c10WildcardSpace(c *fw.Ctx) {
 		{"*a.Example.", []string{"*a.example."}, []string{"a.example.", "ba.example."}, true, ""},
 		{`\*.Example.`, []string{`*.example.`, `\*.EXAMPLE.`}, nil, true, ""},
 		{"a.*.Example.", []string{"A.*.example."}, []string{"a.b.example."}, false, ""},
-		{"*.", []string{"*.", "com.", "a.B."}, nil, false, "."}, // wildcard at the root: Labels 0
+		{"*.", []string{"*.", "com.", "a.B."}, nil, false, "."},  // wildcard at the root: Labels 0
+		{".", []string{"."}, []string{"*.", "com."}, false, "."}, // the root name itself: Labels 0 too, and no wildcard — its signature is over ".", not over "*."
 		// kept labels that hold an escaped dot or backslash: the rightmost Labels labels are labels, not text between dots
 		{`*.b\.c.Example.`, []string{`*.b\.c.example.`, `a.B\.C.example.`, `x.y.b\.c.example.`}, []string{`a.c.example.`, `a.b.c.example.`, `b\.c.example.`}, false, ""},
 		{`*.q\\.Example.`, []string{`a.q\\.example.`, `*.Q\\.example.`}, []string{`a.q.example.`, `a.example.`}, false, ""},
@@ -444,7 +445,7 @@ func c10WildcardSpace(c *fw.Ctx) {
 	}
 	keys := c10KeyIdx(c.Thorough)
 	types := c10TypeIdx("A", "MX", "TXT", "CNAME")
-	c.Space("wildcard", fmt.Sprintf("owners {*.Example., *.Sub.Example., *a.Example., \\*.Example., a.*.Example., *. (root zone, key owner \".\"), and wildcards below labels that hold an escaped dot / backslash (*.b\\.c.Example., *.q\\\\.Example.; expansions of *.c.Example. against names whose label ends in an escaped dot)} × types {A, MX, TXT, CNAME} × %d keys: signed by Sign and by the reference signer (Labels per RFC 4034 §3.1.3); each signature checked by Verify and the reference verifier against the RRset re-owned to every expansion / non-expansion name listed, with the RRSIG owner following; plus Labels ±1; non-trivial: every case", len(keys)), true,
+	c.Space("wildcard", fmt.Sprintf("owners {*.Example., *.Sub.Example., *a.Example., \\*.Example., a.*.Example., *. (root zone, key owner \".\"), the root name itself (Labels 0 without being a wildcard), and wildcards below labels that hold an escaped dot / backslash (*.b\\.c.Example., *.q\\\\.Example.; expansions of *.c.Example. against names whose label ends in an escaped dot)} × types {A, MX, TXT, CNAME} × %d keys: signed by Sign and by the reference signer (Labels per RFC 4034 §3.1.3); each signature checked by Verify and the reference verifier against the RRset re-owned to every expansion / non-expansion name listed, with the RRSIG owner following; plus Labels ±1; non-trivial: every case", len(keys)), true,
 		func(emit func(func(*fw.R))) {
 			for wi := range cases {
 				for _, ti := range types {
